@@ -35,11 +35,11 @@ ASSUMPTIONS = ["one machine, one numba/LLVM build; races are observed only as di
 def _configs(tier, seed):
     rng = np.random.default_rng(9_000 + seed)
     cfgs = []
-    kinds = ["screening", "plain_adaptive", "four_terminals_callable", "timedep_callable", "epsilon_callable", "fixed_holes"]
+    kinds = ["screening", "plain_adaptive", "four_terminals_callable", "screening_from_zero", "timedep_callable", "epsilon_callable", "fixed_holes"]
     if tier == "quick":
-        kinds = kinds[:3]
+        kinds = kinds[:4]
     for name in kinds:
-        scr = name == "screening"
+        scr = name in ("screening", "screening_from_zero")
         nt = 2 if name in ("timedep_callable", "plain_adaptive") else (4 if name == "four_terminals_callable" else 0)
         dev = zoo.gen_device(rng, n_terminals=nt, n_holes=1 if name == "fixed_holes" else 0, probes=2 if nt else 0, size="small" if not scr else "medium", smooth=int(rng.choice([0, 5])))
         if scr:
@@ -47,7 +47,7 @@ def _configs(tier, seed):
         o = S.base_options(rng, adaptive=name != "fixed_holes", steps=25 if scr else 80, screening=scr)
         if scr:
             o.update(max_iterations_per_step=3000, dt_max=0.02, solve_time=0.25)
-        drive = {"A": S.field_spec(rng, dev, o, "ramp" if name == "timedep_callable" else "uniform", b=0.3),
+        drive = {"A": S.field_spec(rng, dev, o, "ramp" if name in ("timedep_callable", "screening_from_zero") else "uniform", b=0.3),
                  "currents": S.current_spec(rng, dev, o, {"timedep_callable": "callable", "four_terminals_callable": "callable", "plain_adaptive": "const"}.get(name, "none"), strength=0.2),
                  "epsilon": {"kind": "spatial_novec" if name == "epsilon_callable" else ("time" if name == "plain_adaptive" else "one")}}  # (plain_adaptive: epsilon(r, t))
         cfgs.append({"name": name, "device": dev, "options": o, "drive": drive})
@@ -80,7 +80,9 @@ def gen_cases(tier, seed):
         o["terminal_psi"] = ["none", 0.5][(k // 2) % 2]
         drive = {"A": S.field_spec(rngh, dev, o, "uniform", b=0.25), "currents": S.current_spec(rngh, dev, o, "const", strength=0.2)}
         ang = float(rngh.uniform(0, 2 * np.pi))
-        cases.append({"layer": "history", "config": f"history{k}", "device": dev, "options": dict(o, output="file"), "drive": drive, "reuse_options": bool(o["adaptive"]),
+        if k % 4 == 3:
+            drive["A"] = S.field_spec(rngh, dev, o, "loop", b=0.25)  # a source that depends on z: the film's height matters
+        cases.append({"layer": "history", "config": f"history{k}", "between": "dz_copy" if k % 4 == 3 else None, "device": dev, "options": dict(o, output="file"), "drive": drive, "reuse_options": bool(o["adaptive"]),
                       "translate": [[0.37, 3.1, 41.7][(k // 2) % 3] * np.cos(ang), [0.37, 3.1, 41.7][(k // 2) % 3] * np.sin(ang)] if k % 2 == 0 else None, "cost": 20, "timeout": 900})
     return cases
 
@@ -181,6 +183,9 @@ def run_case(spec):
     state1 = np.random.get_state()
     V = list(sn.V)
     C = dict(sn.C)
+    for m_ in getattr(rr, "mutated", []):
+        # (a repeated run with the same objects would then differ from this one)
+        V.append({"kind": "solve_changes_callers_inputs", "mechanism": "solve_changes_callers_inputs", "detail": m_})
     C["process_runs"] = 1
     C["rng_state_checks"] = 1
     if not (state0[0] == state1[0] and np.array_equal(state0[1], state1[1]) and state0[2:] == state1[2:]):
@@ -287,6 +292,10 @@ def _run_history(spec):
     if r0.exception is not None and not (isinstance(r0.exception, RuntimeError) and "converge" in str(r0.exception)):
         return {"status": "harness_error", "error": "first run of the history failed: " + repr(r0.exception)[:200]}
     r0.cleanup()  # (an earlier run that gave up with 'failed to converge' is a history like any other)
+    if spec.get("between") == "dz_copy":
+        # a lifted COPY of the device is made (and thrown away): the device itself stays where it is
+        _lifted = used.translate(dz=1.5 * float(used.layer.coherence_length))
+        del _lifted
     move(used)
     fresh = build()
     move(fresh)
